@@ -328,12 +328,12 @@ def gen_cases(rng, tier):
             doc, dmg = gen_malformed(rng)
             cases.append((L('case', doc, L('malformed')), {'kind': 'mal-' + dmg, 'nontrivial': True}))
     # wide multi-level trees (a few thousand objects each; generated after the others so that those stay as they were)
-    for k in range(14 if tier == 'quick' else 160):
+    for k in range(14 if tier == 'quick' else 120):
         bare = rng.random() < 0.6
         exact = rng.random() < 0.5
         while True:
             doc, leaves, wf, t = gen_wf(rng, 'fan', bare, exact)
-            if count_nodes(t) <= (2400 if tier == 'quick' else 6000):   # the extracted model takes 5-10 s on 2400 nodes
+            if count_nodes(t) <= (2400 if tier == 'quick' else 3600):   # the extracted model takes 2-7 s on 2000 nodes, 10-30 s on 3600
                 break
         flags = L('flags', *(['exact-counts'] if exact else []))
         cases.append((L('case', doc, L('leaves', *[OID(*l) for l in leaves]), flags),
@@ -356,9 +356,9 @@ SPEC = {
             'ill-typed; about half of the sections/comb documents are bare: |objects| = tree nodes + catalog + 0..3, no indirection '
             'objects, i.e. least slack of iter_limit) and 13 kinds of damage '
             '(cycles, duplicates, ill-typed kids, missing/ill-typed Type, dangling, Kids not an array, Root/Pages broken, '
-            'Linearized fallback, reference loops); plus 14 (quick) / 160 (thorough) WIDE multi-level trees (fan: 260..600 side-by-side '
+            'Linearized fallback, reference loops); plus 14 (quick) / 120 (thorough) WIDE multi-level trees (fan: 260..600 side-by-side '
             'chains group -> subgroup -> page, balanced root -> 260..400 chapters -> sections -> pages, the same under a root of small '
-            'fan-out, mixed chapters of 1..3 further levels, a few chains of 9..120 nodes side by side; up to 2400 / 6000 tree nodes): '
+            'fan-out, mixed chapters of 1..3 further levels, a few chains of 9..120 nodes side by side; up to 2400 / 3600 tree nodes): '
             'several hundred intermediate nodes that are the last kid of their parent, so the iterator climbs two or more levels by one pop '
             'hundreds of times; every case also steps the iterator by hand recording size_hint before and '
             'after every page (compared with the model; upper bound and count-down checked directly), nth(k)/get_pages()[k+1], and '
